@@ -5,13 +5,21 @@
  *
  * mode "a" (service decoder):
  *   A  feeds vbi_decode(), one frame per call: at most ONE caption line (field
- *      1 or 2, generated EIA-608 traffic for CC1-4/T1-4 plus XDS) and some
- *      Teletext / VPS lines; now and then a time-stamp glitch.  A's CAPTION
- *      event handler fetches all eight pages (documented: "Permits calling
+ *      1 or 2, generated EIA-608 traffic for CC1-4/T1-4 plus XDS incl. network
+ *      changes and ITV triggers), a Teletext page stream (magazines 1 and 2,
+ *      parallel and serial mode, rolling headers with a running clock, header
+ *      text of the same / another network / another magazine, headers damaged
+ *      by parity errors or without their page number: all outcomes of the
+ *      library's header comparison) and VPS lines; time stamps with gaps
+ *      (dropped frames, repeated and backward time stamps) which start the
+ *      channel-switch countdown, so that pages are stored while it runs.
+ *      A's event handler fetches all eight pages on EVERY event type
+ *      (documented: "Although safe to do ..." / "Permits calling
  *      vbi_fetch_cc_page from handler"), and A fetches them again after every
  *      vbi_decode() return: these are the SNAPSHOTS of the sequential execution.
  *   B,C loop vbi_fetch_cc_page() over pages 1..8 (paced, never spinning).
- *   D  calls vbi_channel_switched() at seeded moments of A's progress.
+ *   D  calls vbi_channel_switched() at seeded moments of A's progress, in
+ *      some runs densely, and preferably while a countdown is running.
  * mode "b" (raw decoder):
  *   A  loops vbi_raw_decode() on pre-computed raw images carrying Teletext B,
  *      VPS, Caption 625 and WSS 625.
@@ -32,9 +40,15 @@
  *      state of B's services possible in the window and Sc one of C's.
  *      Return values of add/remove must show the caller's own services exactly
  *      and the other toggler's services in a state possible in the op's window.
- *   3. Deadlock: the main thread watches per-thread progress counters; no
- *      progress of any worker for p2 seconds => "stall:<phases>" and exit 98
- *      (checks/c20.py re-runs the case; only a reproduced stall is a violation).
+ *   3. Deadlock = bounded progress (DESIGN.md 1.3): every API call returns and
+ *      thread A finishes its operation count.  The main thread watches the
+ *      per-thread progress counters (one increment per API call): a thread
+ *      that stays inside one API call for p2 seconds (wall clock; generous:
+ *      a call takes micro- to milliseconds), or no progress of any thread for
+ *      that long, => "stall:C20" with the phases, the kernel state and the CPU
+ *      time each thread used meanwhile (blocked vs spinning), exit 98.
+ *      checks/c20.py re-runs the case in isolation with gdb stacks; only a
+ *      reproduced stall is a violation, the other kind is INCONCLUSIVE.
  *
  * Harness state is per thread (logs merged after join) or relaxed atomics.
  * Relaxed atomic RMWs create no happens-before edge in ThreadSanitizer, so the
@@ -45,14 +59,15 @@
  * Parameters: --p0 frames/decodes of thread A; --p1 1 = H2 yield hook off;
  *             --p2 stall seconds (default 40); --p3 1 = dump gdb stacks on stall;
  *             --p4 bit 0 = without thread C, bit 1 = without thread D;
- *             --p5 1 = (demonstration only, not part of the check) the handler fetches on every
- *             event type, which self-deadlocks where the library sends an event with the
- *             caption mutex held.
+ *             --p5 1 = the handler fetches on CAPTION events only (as before the
+ *             fix abf2da1, when the library sent NETWORK / TRIGGER events with the caption
+ *             mutex held); --p6 n = Teletext/time-stamp profile 1..4 instead of the seeded one.
  */
 #include "vf.h"
 #include <pthread.h>
 #include <sched.h>
 #include <unistd.h>
+#include <sys/syscall.h>
 #include <string.h>
 #include <stdlib.h>
 #include <time.h>
@@ -85,13 +100,16 @@ static inline int a_done(void) { return __atomic_load_n(&g_a_done, __ATOMIC_RELA
 static inline long a_frame(void) { return __atomic_load_n(&g_a_frame, __ATOMIC_RELAXED); }
 
 #define NTHREADS 4
-static long g_progress[NTHREADS];     /* relaxed, one writer each */
-static const char *g_phase[NTHREADS]; /* relaxed pointer to string literal */
+static long g_progress[NTHREADS];     /* relaxed, one writer each: one increment per API call */
+static const char *g_phase[NTHREADS]; /* relaxed pointer to string literal: the API call the thread is in, "pace" or "done" */
+static int g_tid[NTHREADS];           /* relaxed: kernel thread id (for /proc/self/task/<tid>/stat) */
+static long g_a_gap_frame = -1;       /* relaxed: frame of A's last time stamp gap (thread D aims at the countdown) */
 static inline void progress(int t, const char *ph)
 {
 	__atomic_store_n(&g_phase[t], ph, __ATOMIC_RELAXED);
 	__atomic_add_fetch(&g_progress[t], 1, __ATOMIC_RELAXED);
 }
+static inline void set_tid(int t) { __atomic_store_n(&g_tid[t], (int)syscall(SYS_gettid), __ATOMIC_RELAXED); }
 static void wait_go(void)
 {
 	while (!__atomic_load_n(&g_go, __ATOMIC_RELAXED))
@@ -165,6 +183,13 @@ NOTSAN static void page_sum(const vbi_page *pg, struct pgsum *s)
  * ===================================================================== */
 
 struct snap { unsigned long t0, t1; long frame; int in_handler; };
+/* event kinds seen by the handler */
+enum { EVK_CAPTION, EVK_TTX_PAGE, EVK_TRIGGER, EVK_NETWORK, EVK_NETWORK_ID, EVK_ASPECT, EVK_PROG_INFO, EVK_OTHER, NEVK };
+static const char *const evk_name[NEVK] = { "caption", "ttx_page", "trigger", "network", "network_id", "aspect", "prog_info", "other" };
+static const char *const evk_phase[NEVK] = {
+	"vbi_fetch_cc_page(CAPTION-handler)", "vbi_fetch_cc_page(TTX_PAGE-handler)", "vbi_fetch_cc_page(TRIGGER-handler)",
+	"vbi_fetch_cc_page(NETWORK-handler)", "vbi_fetch_cc_page(NETWORK_ID-handler)", "vbi_fetch_cc_page(ASPECT-handler)",
+	"vbi_fetch_cc_page(PROG_INFO-handler)", "vbi_fetch_cc_page(handler)" };
 struct pgchg { long snap; struct pgsum s; };
 struct span { unsigned long c, r; };            /* call / return tick */
 
@@ -182,7 +207,9 @@ static struct {
 	struct span *hand; long n_hand, cap_hand;   /* handler windows */
 	vbi_page pg_a;                              /* A's fetch buffer */
 	long a_frame_now;
-	long caption_events, other_events, ttx_events, trigger_events, handler_fetch_fail;
+	long ev_count[NEVK], handler_fetch_fail;
+	long ttx_ev_same, ttx_ev_first, ttx_ev_broken, ttx_ev_noroll;
+	int caption_only_handler;
 	struct pgsum blank[8];
 	/* fetchers */
 	struct vf_rng rng_f[2];
@@ -218,26 +245,61 @@ static void a_snapshot(int in_handler)
 	A.n_snaps++;
 }
 
+/* what thread A knows about the Teletext headers it sent (thread A only) */
+static struct {
+	/* per-run profile */
+	int gap_den;            /* a time stamp gap every gap_den frames on average */
+	int ttx_den;            /* Teletext lines in one of ttx_den frames */
+	int dmg_den;            /* one of dmg_den headers is damaged */
+	int mag2_own;           /* magazine 2 carries its own header text */
+	long clock0;            /* seconds of day at frame 0 */
+	/* state */
+	int net;                /* header variant = network */
+	int open[3];            /* open page per magazine 1,2: -1 none, else the page byte */
+	long open_frame[3];     /* frame its header was sent in */
+	int open_flags[3];      /* HDR_* of its header */
+	uint8_t sent[0x300];    /* HDR_* of the last header sent for pgno */
+	long last_gap;          /* frame of the last time stamp gap */
+	/* counters */
+	long headers, hdr_parity, hdr_nopgno, hdr_clock_parity, hdr_hamming, hdr_mag2, hdr_serial, hdr_flagged, hdr_hex, hdr_filler,
+	     net_changes, gaps, gap_kind[4], ended_in_window, ended_in_window_damaged, ended_in_window_othermag, body_packets;
+} T;
+#define HDR_ELIGIBLE 1      /* the library will treat it as a rolling header */
+#define HDR_DAMAGED  2      /* parity error in the compared text, or page number not in the text */
+#define HDR_SENT     4
+
 /* runs in thread A (handlers are called by the decoding thread) */
 static void a_handler(vbi_event *ev, void *ud)
 {
+	int k;
+	unsigned long c;
 	(void)ud;
-	if (ev->type == VBI_EVENT_CAPTION || vf_param[5]) {
-		unsigned long c = tick();
-		if (ev->type == VBI_EVENT_CAPTION) A.caption_events++; else A.other_events++;
-		__atomic_store_n(&g_phase[0], "vbi_fetch_cc_page(handler)", __ATOMIC_RELAXED);
-		a_snapshot(1);
-		__atomic_store_n(&g_phase[0], "vbi_decode", __ATOMIC_RELAXED);
-		if (A.n_hand < A.cap_hand) { A.hand[A.n_hand].c = c; A.hand[A.n_hand].r = tick(); A.n_hand++; }
-	} else if (ev->type == VBI_EVENT_TTX_PAGE) {
-		A.ttx_events++;
-	} else if (ev->type == VBI_EVENT_TRIGGER) {
-		A.trigger_events++;
-	} else {
-		/* NETWORK, NETWORK_ID, ASPECT, PROG_INFO: no fetch here - the
-		 * library sends some of these with the caption mutex held */
-		A.other_events++;
+	switch (ev->type) {
+	case VBI_EVENT_CAPTION: k = EVK_CAPTION; break;
+	case VBI_EVENT_TTX_PAGE: k = EVK_TTX_PAGE; break;
+	case VBI_EVENT_TRIGGER: k = EVK_TRIGGER; break;
+	case VBI_EVENT_NETWORK: k = EVK_NETWORK; break;
+	case VBI_EVENT_NETWORK_ID: k = EVK_NETWORK_ID; break;
+	case VBI_EVENT_ASPECT: k = EVK_ASPECT; break;
+	case VBI_EVENT_PROG_INFO: k = EVK_PROG_INFO; break;
+	default: k = EVK_OTHER; break;
 	}
+	A.ev_count[k]++;
+	if (k == EVK_TTX_PAGE) {
+		/* which way the header comparison went, as far as the event shows it */
+		int pgno = ev->ev.ttx_page.pgno;
+		int fl = pgno >= 0x100 && pgno < 0x300 ? T.sent[pgno] : 0;
+		if (ev->ev.ttx_page.roll_header && ev->ev.ttx_page.header_update) A.ttx_ev_first++;
+		else if (ev->ev.ttx_page.roll_header) A.ttx_ev_same++;
+		else if (fl & HDR_ELIGIBLE) A.ttx_ev_broken++;       /* inconclusive comparison, no countdown running */
+		else A.ttx_ev_noroll++;
+	}
+	if (A.caption_only_handler && k != EVK_CAPTION) return;
+	c = tick();
+	progress(0, evk_phase[k]);
+	a_snapshot(1 + k);
+	progress(0, "vbi_decode");
+	if (A.n_hand < A.cap_hand) { A.hand[A.n_hand].c = c; A.hand[A.n_hand].r = tick(); A.n_hand++; }
 }
 
 /* ---- EIA-608 traffic generator (independent of the library) ---- */
@@ -382,28 +444,112 @@ static void gen_action(struct vf_rng *r)
 	}
 }
 
-/* ---- Teletext / VPS lines (Teletext keeps the decoder's other paths busy and
- * drives the header-change channel switch detection) ---- */
+/* ---- Teletext / VPS lines.  The Teletext stream keeps the decoder's other
+ * paths busy and drives every branch of the header comparison in store_lop()
+ * (src/packet.c), which reads and clears the channel-switch countdown under
+ * chswcd_mutex: same header (countdown cleared), header of another network in
+ * the same magazine (reset), header of another magazine / damaged header
+ * (inconclusive: page dropped while the countdown runs). ---- */
 
-static int g_ttx_hdr;                  /* header variant */
-static void ttx_line(vbi_sliced *s, int mag, int packet, int page, struct vf_rng *r)
+static void ttx_addr(vbi_sliced *s, int mag, int packet, struct vf_rng *r)
 {
-	int i;
 	memset(s, 0, sizeof *s);
 	s->id = VBI_SLICED_TELETEXT_B;
 	s->line = 7 + (unsigned)vf_below(r, 10);
 	s->data[0] = vbi_ham8((unsigned)((mag & 7) | ((packet & 1) << 3)));
 	s->data[1] = vbi_ham8((unsigned)(packet >> 1));
-	if (packet == 0) {
-		char hdr[33];
-		s->data[2] = vbi_ham8((unsigned)(page & 15));
-		s->data[3] = vbi_ham8((unsigned)((page >> 4) & 15));
-		for (i = 4; i < 10; i++) s->data[i] = vbi_ham8(0);
-		snprintf(hdr, sizeof hdr, "%s %d%02X  Mon 01 Jan 12:34:%02u      ", g_ttx_hdr ? "OTHERTV " : "VERIFTXT", mag, (unsigned)page, vf_below(r, 60));
-		for (i = 0; i < 32; i++) s->data[10 + i] = vbi_par8((unsigned)(hdr[i] ? hdr[i] : ' '));
-	} else {
-		for (i = 2; i < 42; i++) s->data[i] = vbi_par8(0x20 + vf_below(r, 0x5f));
+}
+
+static void ttx_body(vbi_sliced *s, int mag, struct vf_rng *r)
+{
+	int i;
+	ttx_addr(s, mag, 1 + (int)vf_below(r, 24), r);
+	for (i = 2; i < 42; i++) s->data[i] = vbi_par8(0x20 + vf_below(r, 0x5f));
+	T.body_packets++;
+}
+
+/* a page header: ends the page open in its magazine (parallel mode) or the
+ * page sent last (serial mode) */
+static void ttx_header(vbi_sliced *s, int mag, struct vf_rng *r, long frame)
+{
+	static const char *const day[7] = { "Mon", "Tue", "Wed", "Thu", "Fri", "Sat", "Sun" };
+	char txt[48];
+	const char *name;
+	int page, c4 = 0, c6 = 0, c7 = 0, c11 = 0, i, fl = 0, pgno;
+	long sod = T.clock0 + frame / 30, dayno = sod / 86400;
+
+	/* page number: mostly the few BCD pages with rolling headers */
+	switch (vf_below(r, 24)) {
+	case 0: page = 0x0A + (int)vf_below(r, 6); T.hdr_hex++; break;      /* hex page: no rolling header */
+	case 1: page = 0xFF; T.hdr_filler++; break;                         /* time filling header */
+	default: page = (int)vf_below(r, mag == 1 ? 4 : 2); break;
 	}
+	if (vf_chance(r, 1, 10)) { c11 = 1; T.hdr_serial++; }
+	if (vf_chance(r, 1, 12)) c4 = 1;
+	if (vf_chance(r, 1, 24)) { if (vf_chance(r, 1, 2)) c6 = 1; else c7 = 1; T.hdr_flagged++; }
+	pgno = mag * 256 + page;
+
+	ttx_addr(s, mag, 0, r);
+	s->data[2] = vbi_ham8((unsigned)(page & 15));
+	s->data[3] = vbi_ham8((unsigned)(page >> 4));
+	s->data[4] = vbi_ham8(0);
+	s->data[5] = vbi_ham8(c4 ? 8u : 0u);
+	s->data[6] = vbi_ham8(0);
+	s->data[7] = vbi_ham8(c6 ? 8u : 0u);
+	s->data[8] = vbi_ham8(c7 ? 1u : 0u);
+	s->data[9] = vbi_ham8(c11 ? 1u : 0u);
+
+	/* 24 characters the library compares (name, page number, date), 8 characters clock */
+	name = mag == 2 && T.mag2_own ? (T.net ? "OTHER-M2" : "VERIF-M2") : (T.net ? "OTHERTV " : "VERIFTXT");
+	snprintf(txt, sizeof txt, "%-8.8s %d%02X %s %02ld Jan %02ld:%02ld:%02ld", name, mag, (unsigned)page,
+		 day[dayno % 7], 1 + dayno % 28, (sod / 3600) % 24, (sod / 60) % 60, sod % 60);
+	for (i = 0; i < 32; i++) s->data[10 + i] = vbi_par8((unsigned)(txt[i] ? txt[i] : ' '));
+
+	if (page <= 0x99 && (page & 15) <= 9 && !c6 && !c7 && (pgno <= 0x199 || c11)) fl |= HDR_ELIGIBLE;
+	if (mag == 2) T.hdr_mag2++;
+	if (vf_chance(r, 1, (unsigned)T.dmg_den)) {
+		switch (vf_below(r, 8)) {
+		case 0: case 1: case 2:                        /* parity error in the compared text */
+			s->data[10 + vf_below(r, 24)] ^= 0x80; fl |= HDR_DAMAGED; T.hdr_parity++; break;
+		case 3: case 4:                                /* the page number is not in the header text */
+			s->data[10 + 9] = vbi_par8('8'); s->data[10 + 10] = vbi_par8('8'); s->data[10 + 11] = vbi_par8('8');
+			fl |= HDR_DAMAGED; T.hdr_nopgno++; break;
+		case 5: case 6:                                /* parity error in the clock */
+			s->data[10 + 24 + vf_below(r, 8)] ^= 0x80; T.hdr_clock_parity++; break;
+		default:                                       /* Hamming error in the page address */
+			s->data[2 + vf_below(r, 2)] ^= 0x11; fl = 0; page = -1; T.hdr_hamming++; break;
+		}
+	}
+	T.headers++;
+	/* harness-side book-keeping (parallel mode view): the page open in this magazine ends now */
+	if (T.open[mag] >= 0 && page >= 0 && T.open[mag] != page && (T.open_flags[mag] & HDR_ELIGIBLE)
+	    && T.last_gap >= 0 && T.open_frame[mag] > T.last_gap && frame <= T.last_gap + 40) {
+		T.ended_in_window++;
+		if (T.open_flags[mag] & HDR_DAMAGED) T.ended_in_window_damaged++;
+		if (mag == 2 && T.mag2_own) T.ended_in_window_othermag++;
+	}
+	if (page >= 0) {
+		T.open[mag] = page == 0xFF ? -1 : page;
+		T.open_frame[mag] = frame;
+		T.open_flags[mag] = fl;
+		if (page != 0xFF) T.sent[pgno] = (uint8_t)(fl | HDR_SENT);
+	} else {
+		T.open[1] = T.open[2] = -1;              /* Hamming error in a header: the library drops all open pages */
+	}
+}
+
+static int ttx_lines(vbi_sliced *sl, int max, struct vf_rng *r, long frame)
+{
+	int n = 0, k = 1 + (int)vf_below(r, 3);
+	while (k-- > 0 && n < max) {
+		int mag = vf_chance(r, 1, 4) ? 2 : 1;
+		if (T.open[mag] < 0 || vf_chance(r, 2, 5)) {
+			if (vf_chance(r, 1, 60)) { T.net ^= 1; T.net_changes++; }   /* the header text of another network */
+			ttx_header(&sl[n++], mag, r, frame);
+		} else
+			ttx_body(&sl[n++], mag, r);
+	}
+	return n;
 }
 
 static int g_cni;
@@ -416,16 +562,34 @@ static void vps_line(vbi_sliced *s)
 	vbi_encode_vps_cni(s->data, cnis[g_cni % 3]);
 }
 
+/* the per-run profile of the Teletext stream and of the time stamps */
+static void ttx_profile(struct vf_rng *r)
+{
+	static const struct { int gap, ttx, dmg; } prof[4] = {
+		{ 400, 5, 6 },     /* as a good reception: rare gaps, few pages */
+		{ 90, 2, 4 },      /* dropped frames every three seconds, busy Teletext */
+		{ 35, 2, 3 },      /* the countdown runs most of the time */
+		{ 150, 3, 12 },
+	};
+	int k = vf_param[6] >= 1 && vf_param[6] <= 4 ? (int)vf_param[6] - 1 : (int)vf_below(r, 4);
+	memset(&T, 0, sizeof T);
+	T.gap_den = prof[k].gap; T.ttx_den = prof[k].ttx; T.dmg_den = prof[k].dmg;
+	T.mag2_own = (int)vf_below(r, 2);
+	T.clock0 = vf_chance(r, 1, 3) ? 86400 - (long)vf_range(r, 5, 60) : (long)vf_below(r, 86400);   /* one run in three crosses midnight */
+	T.open[1] = T.open[2] = -1;
+	T.last_gap = -1;
+}
+
 static void *a_decoder_thread(void *arg)
 {
 	struct vf_rng *r = &A.rng_a;
-	double t = 1000.0;
+	double t = 1000.0, tmax = 0;
 	long f;
-	int ttx_page = 0x00, ttx_left = 0;
 	(void)arg;
+	set_tid(0);
 	wait_go();
 	for (f = 0; f < A.frames; f++) {
-		vbi_sliced sl[6];
+		vbi_sliced sl[8];
 		int n = 0, field;
 		A.a_frame_now = f;
 		if (ff_len(&ff[0]) == 0 && ff_len(&ff[1]) == 0) {
@@ -434,18 +598,8 @@ static void *a_decoder_thread(void *arg)
 			if (vf_chance(r, 1, 2)) gen_action(r);
 		}
 		/* Teletext / VPS first or last, at most one caption line per call */
-		if (ttx_left > 0 || vf_chance(r, 1, 6)) {
-			if (ttx_left <= 0) {
-				ttx_left = vf_range(r, 2, 6);
-				ttx_page = vf_chance(r, 1, 2) ? 0x00 : (int)vf_below(r, 4);
-				if (vf_chance(r, 1, 40)) g_ttx_hdr ^= 1;
-				ttx_line(&sl[n++], 1, 0, ttx_page, r);
-			} else {
-				ttx_line(&sl[n++], 1, 1 + (int)vf_below(r, 23), ttx_page, r);
-				if (vf_chance(r, 1, 2)) ttx_line(&sl[n++], 1, 1 + (int)vf_below(r, 23), ttx_page, r);
-			}
-			ttx_left--;
-		}
+		if (vf_chance(r, 1, (unsigned)T.ttx_den))
+			n += ttx_lines(sl, 3, r, f);
 		if (vf_chance(r, 1, 10)) {
 			if (vf_chance(r, 1, 30)) g_cni++;
 			vps_line(&sl[n++]);
@@ -462,15 +616,32 @@ static void *a_decoder_thread(void *arg)
 			ff[field].rd++;
 			if (n > 1 && vf_chance(r, 1, 2)) { vbi_sliced tmp = sl[0]; sl[0] = sl[n - 1]; sl[n - 1] = tmp; }
 		}
-		/* time: 1/30 s per frame; rarely a glitch (starts the 40 frame countdown) */
-		t += vf_chance(r, 1, 400) ? 0.5 : 1 / 29.97;
+		/* time: 1/30 s per frame; now and then a gap (dropped frames), a
+		 * repeated or a backward time stamp: each starts the 40 frame
+		 * channel-switch countdown and discards the pages in reception */
+		if (f > 0 && vf_chance(r, 1, (unsigned)T.gap_den)) {
+			int kind = (int)vf_below(r, 4);
+			static const double step[4] = { 0.5, 2 / 29.97 + 0.012, 0.0, -0.1 };
+			t += step[kind];
+			T.gap_kind[kind]++;
+		} else
+			t += 1 / 29.97;
+		/* the documented rule: "timestamp shall advance by 1/30 to 1/25 seconds
+		 * ... Failure to do so will be interpreted as frame dropping" */
+		if (f > 0 && (t - tmax < 0.025 || t - tmax > 0.050)) {
+			T.gaps++;
+			T.last_gap = f;
+			T.open[1] = T.open[2] = -1;
+			__atomic_store_n(&g_a_gap_frame, f, __ATOMIC_RELAXED);
+		}
+		if (t > tmax) tmax = t;
 
 		progress(0, "vbi_decode");
 		A.dec[A.n_dec].c = tick();
 		vbi_decode(A.vbi, sl, n, t);
 		A.dec[A.n_dec].r = tick();
 		A.n_dec++;
-		__atomic_store_n(&g_phase[0], "vbi_fetch_cc_page(A)", __ATOMIC_RELAXED);
+		progress(0, "vbi_fetch_cc_page(A)");
 		a_snapshot(0);
 		__atomic_store_n(&g_a_frame, f + 1, __ATOMIC_RELAXED);
 		if (vf_chance(r, 1, 6)) sched_yield();
@@ -485,6 +656,7 @@ static void *a_fetch_thread(void *arg)
 	int me = (int)(long)arg;               /* 0 = B, 1 = C */
 	struct vf_rng *r = &A.rng_f[me];
 	vbi_page *pg = &A.pg_f[me];
+	set_tid(1 + me);
 	wait_go();
 	while (!a_done() && A.n_fr[me] < A.cap_fr) {
 		struct fetch_rec *fr;
@@ -499,7 +671,7 @@ static void *a_fetch_thread(void *arg)
 		fr->r = tick();
 		if (fr->ret) page_sum(pg, &fr->s);
 		A.n_fr[me]++;
-		__atomic_store_n(&g_phase[1 + me], "pace", __ATOMIC_RELAXED);
+		progress(1 + me, "pace");
 		pace(r);
 	}
 	progress(1 + me, "done");
@@ -509,10 +681,19 @@ static void *a_fetch_thread(void *arg)
 static void *a_switch_thread(void *arg)
 {
 	struct vf_rng *r = &A.rng_d;
-	long next = vf_range(r, 10, 120);
+	int dense = vf_chance(r, 1, 3);         /* one run in three: a request every few frames */
+	long next = vf_range(r, 10, 120), seen_gap = -1;
 	(void)arg;
+	set_tid(3);
 	wait_go();
 	while (!a_done() && A.n_sw < A.cap_sw) {
+		long gap = __atomic_load_n(&g_a_gap_frame, __ATOMIC_RELAXED);
+		if (gap != seen_gap) {
+			/* A reported a time stamp gap: the countdown runs for the next 40
+			 * frames; every other time aim a request into it */
+			seen_gap = gap;
+			if (vf_chance(r, 1, 2)) { long n2 = gap + vf_range(r, 0, 38); if (n2 < next) next = n2; }
+		}
 		if (a_frame() < next) { usleep(100 + vf_below(r, 200)); continue; }
 		usleep(vf_below(r, 300));       /* land anywhere inside a frame */
 		progress(3, "vbi_channel_switched");
@@ -520,8 +701,8 @@ static void *a_switch_thread(void *arg)
 		vbi_channel_switched(A.vbi, 0);
 		A.sw[A.n_sw].r = tick();
 		A.n_sw++;
-		__atomic_store_n(&g_phase[3], "pace", __ATOMIC_RELAXED);
-		next = a_frame() + (vf_chance(r, 1, 5) ? vf_range(r, 1, 4) : vf_range(r, 20, 250));
+		progress(3, "pace");
+		next = a_frame() + (vf_chance(r, 1, 5) ? vf_range(r, 1, 4) : dense ? vf_range(r, 3, 40) : vf_range(r, 20, 250));
 	}
 	progress(3, "done");
 	return NULL;
@@ -536,35 +717,85 @@ static void dump_gdb(void)
 	if (system(cmd) != 0) { /* best effort */ }
 }
 
-/* returns 0 when all threads finished, exits 98 on stall */
+/* kernel state letter and CPU seconds (user + system) of one thread */
+static char task_state(int tid, double *cpu)
+{
+	char path[64], buf[512], *q, st = '?';
+	FILE *fp;
+	unsigned long ut = 0, stt = 0;
+	*cpu = 0;
+	if (tid <= 0) return st;
+	snprintf(path, sizeof path, "/proc/self/task/%d/stat", tid);
+	fp = fopen(path, "r");
+	if (!fp) return st;
+	if (fgets(buf, sizeof buf, fp) && (q = strrchr(buf, ')')) && q[1] == ' ') {
+		st = q[2];
+		/* fields after the state: ppid pgrp session tty tpgid flags minflt cminflt majflt cmajflt utime stime */
+		sscanf(q + 3, "%*d %*d %*d %*d %*d %*u %*u %*u %*u %*u %lu %lu", &ut, &stt);
+		*cpu = (double)(ut + stt) / (double)sysconf(_SC_CLK_TCK);
+	}
+	fclose(fp);
+	return st;
+}
+
+/* Bounded progress: returns when all threads finished; writes "stall:C20" and
+ * exits 98 when a thread stays inside one API call for stall_s seconds or no
+ * thread makes progress for stall_s seconds.  A thread the kernel shows as
+ * runnable (state R) that got no CPU is starved by the machine, not blocked:
+ * it gets three times the budget. */
 static void join_with_watchdog(pthread_t *th, int nth, int n, const char *scenario)
 {
 	long last[NTHREADS] = {0}, stall_s = vf_param[2] > 0 ? vf_param[2] : 40;
-	struct timespec t_last, now;
+	struct timespec t_last[NTHREADS], t_any, now;
+	double cpu_half[NTHREADS] = {0};
+	int half_taken[NTHREADS] = {0};
 	int i, alive;
-	clock_gettime(CLOCK_MONOTONIC, &t_last);
+	clock_gettime(CLOCK_MONOTONIC, &t_any);
+	for (i = 0; i < NTHREADS; i++) t_last[i] = t_any;
 	for (;;) {
-		int moved = 0;
+		int stuck = -1;
 		alive = 0;
+		clock_gettime(CLOCK_MONOTONIC, &now);
 		for (i = 0; i < n; i++) {
 			long p = __atomic_load_n(&g_progress[i], __ATOMIC_RELAXED);
 			const char *ph = __atomic_load_n(&g_phase[i], __ATOMIC_RELAXED);
-			if (p != last[i]) { last[i] = p; moved = 1; }
+			int in_call = ph && strcmp(ph, "done") && strcmp(ph, "pace");
+			long idle;
 			if (!ph || strcmp(ph, "done")) alive++;
+			if (p != last[i]) { last[i] = p; t_last[i] = now; t_any = now; half_taken[i] = 0; }
+			idle = (long)(now.tv_sec - t_last[i].tv_sec);
+			if (in_call && idle >= stall_s / 2 && !half_taken[i]) { task_state(__atomic_load_n(&g_tid[i], __ATOMIC_RELAXED), &cpu_half[i]); half_taken[i] = 1; }
+			if (in_call && idle >= stall_s) {
+				double cpu;
+				char st = task_state(__atomic_load_n(&g_tid[i], __ATOMIC_RELAXED), &cpu);
+				if (st == 'R' && cpu - cpu_half[i] < 0.05 && idle < 3 * stall_s) continue;   /* starved, not blocked */
+				if (stuck < 0) stuck = i;
+			}
 		}
 		if (!alive) break;
-		clock_gettime(CLOCK_MONOTONIC, &now);
-		if (moved) t_last = now;
-		else if (now.tv_sec - t_last.tv_sec >= stall_s) {
-			char ph[200];
-			int o = 0;
+		if (stuck < 0 && now.tv_sec - t_any.tv_sec >= 3 * stall_s) stuck = n;   /* nobody moves, nobody is inside a call */
+		if (stuck >= 0) {
+			char ph[400];
+			int o = 0, spinning = 0;
 			for (i = 0; i < n; i++) {
 				const char *p = __atomic_load_n(&g_phase[i], __ATOMIC_RELAXED);
-				o += snprintf(ph + o, sizeof ph - (size_t)o, "%s%c=%s", i ? "," : "", "ABCD"[i], p ? p : "?");
+				double cpu;
+				char st = task_state(__atomic_load_n(&g_tid[i], __ATOMIC_RELAXED), &cpu);
+				long idle = (long)(now.tv_sec - t_last[i].tv_sec);
+				int in_call = p && strcmp(p, "done") && strcmp(p, "pace");
+				double used = half_taken[i] ? cpu - cpu_half[i] : 0;
+				/* the threads that did not return; the others are reported as "busy" / "pace" / "done" */
+				o += snprintf(ph + o, sizeof ph - (size_t)o, "%s%c=%s", i ? "," : "", "ABCD"[i],
+					      !p ? "?" : in_call && idle < stall_s / 2 ? "busy" : p);
+				if (in_call && idle >= stall_s / 2) {
+					if (used > 0.4 * (double)(stall_s - stall_s / 2)) spinning = 1;
+					o += snprintf(ph + o, sizeof ph - (size_t)o, "[%c,%lds,cpu%.2f]", st, idle, used);
+				}
 			}
 			if (vf_param[3]) dump_gdb();
-			vf_fail("stall:C20", "scenario %s: no thread made progress for %ld s; phases %s ; progress A=%ld B=%ld C=%ld D=%ld",
-				scenario, stall_s, ph, last[0], last[1], last[2], last[3]);
+			vf_fail("stall:C20", "scenario %s: %s; kind %s ; phases %s ; progress A=%ld B=%ld C=%ld D=%ld",
+				scenario, stuck < n ? "an API call did not return" : "no thread made progress",
+				spinning ? "spinning" : "blocked", ph, last[0], last[1], last[2], last[3]);
 			_exit(98);
 		}
 		usleep(5000);
@@ -720,10 +951,40 @@ static int analyse_a(void)
 	}
 	COUNT("a_frames_decoded", A.n_dec);
 	COUNT("a_snapshots", A.n_snaps);
-	COUNT("a_caption_events", A.caption_events);
-	COUNT("a_ttx_page_events", A.ttx_events);
-	COUNT("a_other_events", A.other_events);
-	COUNT("a_trigger_events", A.trigger_events);
+	{
+		int k;
+		for (k = 0; k < NEVK; k++) {
+			char nm[48];
+			snprintf(nm, sizeof nm, "a_%s_events", evk_name[k]);
+			COUNT(nm, A.ev_count[k]);
+		}
+	}
+	COUNT("a_handler_calls_fetching", A.n_hand);
+	/* Teletext: what was sent (harness side) and how the library's header comparison went (event side) */
+	COUNT("a_ttx_headers_sent", T.headers);
+	COUNT("a_ttx_body_packets_sent", T.body_packets);
+	COUNT("a_ttx_headers_parity_error_in_text", T.hdr_parity);
+	COUNT("a_ttx_headers_without_page_number", T.hdr_nopgno);
+	COUNT("a_ttx_headers_parity_error_in_clock", T.hdr_clock_parity);
+	COUNT("a_ttx_headers_hamming_error", T.hdr_hamming);
+	COUNT("a_ttx_headers_magazine_2", T.hdr_mag2);
+	COUNT("a_ttx_headers_serial_mode", T.hdr_serial);
+	COUNT("a_ttx_headers_subtitle_or_suppressed", T.hdr_flagged);
+	COUNT("a_ttx_headers_hex_page", T.hdr_hex);
+	COUNT("a_ttx_headers_time_filling", T.hdr_filler);
+	COUNT("a_ttx_header_text_network_changes", T.net_changes);
+	COUNT("a_ttx_events_header_same", A.ttx_ev_same);
+	COUNT("a_ttx_events_first_header_after_switch", A.ttx_ev_first);
+	COUNT("a_ttx_events_header_inconclusive", A.ttx_ev_broken);
+	COUNT("a_ttx_events_no_rolling_header", A.ttx_ev_noroll);
+	COUNT("a_time_stamp_gaps", T.gaps);
+	COUNT("a_time_stamp_gaps_half_second", T.gap_kind[0]);
+	COUNT("a_time_stamp_gaps_one_dropped_frame", T.gap_kind[1]);
+	COUNT("a_time_stamp_repeated", T.gap_kind[2]);
+	COUNT("a_time_stamp_backward", T.gap_kind[3]);
+	COUNT("a_ttx_rolling_pages_ended_within_40_frames_of_gap", T.ended_in_window);
+	COUNT("a_ttx_rolling_pages_ended_within_40_frames_of_gap_damaged_header", T.ended_in_window_damaged);
+	COUNT("a_ttx_rolling_pages_ended_within_40_frames_of_gap_other_magazine_header", T.ended_in_window_othermag);
 	COUNT("a_fetches", fetch_total);
 	COUNT("a_fetches_overlapping_decode", overlap_fetch);
 	COUNT("a_fetches_returning_inside_event_handler_gap", fetch_in_handler_gap);
@@ -759,18 +1020,20 @@ static int run_a(struct vf_rng *r)
 
 	memset(&A, 0, sizeof A);
 	memset(ff, 0, sizeof ff);
-	g_word = g_net = g_ttx_hdr = g_cni = 0;
+	g_word = g_net = g_cni = 0;
 	A.frames = frames;
+	A.caption_only_handler = vf_param[5] == 1;
 	vf_rng_seed(&A.rng_a, vf_u64(r), 1);
 	vf_rng_seed(&A.rng_f[0], vf_u64(r), 2);
 	vf_rng_seed(&A.rng_f[1], vf_u64(r), 3);
 	vf_rng_seed(&A.rng_d, vf_u64(r), 4);
-	A.cap_snaps = frames * 6 + 64;
+	ttx_profile(&A.rng_a);
+	A.cap_snaps = frames * 8 + 64;
 	A.snaps = xcalloc((size_t)A.cap_snaps, sizeof *A.snaps);
 	for (p = 0; p < 8; p++) { A.cap_chg[p] = A.cap_snaps; A.chg[p] = xcalloc((size_t)A.cap_chg[p], sizeof **A.chg); }
 	A.dec = xcalloc((size_t)frames, sizeof *A.dec);
 	A.capt = xcalloc((size_t)frames, sizeof *A.capt);
-	A.cap_hand = frames * 5 + 64;
+	A.cap_hand = frames * 7 + 64;
 	A.hand = xcalloc((size_t)A.cap_hand, sizeof *A.hand);
 	A.cap_fr = frames * 3 + 64;
 	A.fr[0] = xcalloc((size_t)A.cap_fr, sizeof **A.fr);
@@ -788,9 +1051,10 @@ static int run_a(struct vf_rng *r)
 	a_snapshot(0);
 	for (p = 0; p < 8; p++) A.blank[p] = A.chg[p][0].s;
 
-	g_a_done = 0; g_a_frame = 0; g_go = 0;
+	g_a_done = 0; g_a_frame = 0; g_go = 0; g_a_gap_frame = -1;
 	memset(g_progress, 0, sizeof g_progress);
 	memset((void *)g_phase, 0, sizeof g_phase);
+	memset(g_tid, 0, sizeof g_tid);
 	vf_phase("scenario-a");
 	/* --p4 bit 0: no thread C; bit 1: no thread D (thorough tier varies the thread count) */
 	nt = 0;
@@ -802,8 +1066,11 @@ static int run_a(struct vf_rng *r)
 	join_with_watchdog(th, nt, 4, "a");
 
 	p = analyse_a();
-	vf_sample("scenario a: %ld frames, %ld snapshots, fetches B=%ld C=%ld, %ld channel switch requests, %ld caption events",
-		  A.n_dec, A.n_snaps, A.n_fr[0], A.n_fr[1], A.n_sw, A.caption_events);
+	vf_sample("scenario a: %ld frames (%ld time stamp gaps), %ld snapshots, fetches B=%ld C=%ld, %ld channel switch requests, events: %ld caption %ld ttx_page %ld network %ld trigger %ld aspect/prog_info; "
+		  "%ld Teletext headers (%ld damaged), profile gap 1/%d ttx 1/%d damage 1/%d",
+		  A.n_dec, T.gaps, A.n_snaps, A.n_fr[0], A.n_fr[1], A.n_sw, A.ev_count[EVK_CAPTION], A.ev_count[EVK_TTX_PAGE],
+		  A.ev_count[EVK_NETWORK] + A.ev_count[EVK_NETWORK_ID], A.ev_count[EVK_TRIGGER], A.ev_count[EVK_ASPECT] + A.ev_count[EVK_PROG_INFO],
+		  T.headers, T.hdr_parity + T.hdr_nopgno, T.gap_den, T.ttx_den, T.dmg_den);
 	vf_phase("vbi_decoder_delete");
 	vbi_decoder_delete(A.vbi);
 	free(A.snaps); free(A.dec); free(A.capt); free(A.hand); free(A.fr[0]); free(A.fr[1]); free(A.sw);
@@ -1037,6 +1304,7 @@ static void *b_decode_thread(void *arg)
 	struct vf_rng *r = &B.rng[0];
 	long k;
 	(void)arg;
+	set_tid(0);
 	wait_go();
 	for (k = 0; k < B.decodes; k++) {
 		struct dec_rec *d = &B.dr[k];
@@ -1049,7 +1317,7 @@ static void *b_decode_thread(void *arg)
 		d->h = out_hash(B.out, d->n < 0 ? 0 : d->n > BLINES ? BLINES : d->n, &d->idbits);
 		B.n_dr = k + 1;
 		__atomic_store_n(&g_a_frame, k + 1, __ATOMIC_RELAXED);
-		__atomic_store_n(&g_phase[0], "pace", __ATOMIC_RELAXED);
+		progress(0, "pace");
 		/* a capture loop waits for the next frame; without a pause the
 		 * decoder re-takes the mutex before a waiting toggler wakes up */
 		if (vf_chance(r, 2, 3)) usleep(20 + vf_below(r, 300)); else sched_yield();
@@ -1064,6 +1332,7 @@ static void *b_toggle_thread(void *arg)
 	int me = (int)(long)arg;               /* 0 = B, 1 = C */
 	struct vf_rng *r = &B.rng[1 + me];
 	unsigned own = me ? OWN_C : OWN_B, state = own;   /* all services on at start */
+	set_tid(1 + me);
 	wait_go();
 	while (!a_done() && B.n_tr[me] < B.cap_tr) {
 		struct tog_rec *t;
@@ -1099,7 +1368,7 @@ static void *b_toggle_thread(void *arg)
 		}
 		t->own_after = state;
 		B.n_tr[me]++;
-		__atomic_store_n(&g_phase[1 + me], "pace", __ATOMIC_RELAXED);
+		progress(1 + me, "pace");
 		if (vf_chance(r, 1, 4)) pace(r); else usleep(100 + vf_below(r, 900));
 	}
 	progress(1 + me, "done");
